@@ -1013,7 +1013,7 @@ fn main() {
     }
 
     // ---- generated histories, every fragmentation
-    let n_small = if th { 160 } else { 28 };
+    let n_small = if th { 130 } else { 28 };
     for i in 0..n_small {
         let wild = i % 2 == 1;
         let ticks = 1 + cx.r.below(if th { 14 } else { 9 }) as usize;
@@ -1035,7 +1035,7 @@ fn main() {
         do_stream(&mut cx, s, "long", false);
     }
     // streams larger than the buffer (8192): compaction and growth of the real Vec
-    let n_big = if th { 6 } else { 1 };
+    let n_big = if th { 4 } else { 1 };
     for i in 0..n_big {
         let (mut s, _) = gen_stream(&mut cx.r, if th { 300 } else { 130 }, false, false, "2");
         s.pop(); // FINISH
@@ -1075,7 +1075,7 @@ fn main() {
         do_stream(&mut cx, s, "badheader", true);
     }
     // ---- hostile records (bad counts, inner structs cut short), truncations, corruptions, garbage
-    let n_h = if th { 150 } else { 24 };
+    let n_h = if th { 120 } else { 24 };
     for i in 0..n_h {
         let nt = 1 + cx.r.below(6) as usize;
         let (s, _) = gen_stream(&mut cx.r, nt, i % 2 == 0, true, "2");
